@@ -3,6 +3,8 @@
 // One op per input line, exactly one output line per op.  Values are small integers / dyadic rationals held in
 // doubles (exact regime); every double is printed exactly (integer, or num/2^k, or %.17g as a last resort).
 //
+// Views are held as shallow copies (copy construction links to the source's data) — `v >>= x.soft_link()` would
+// dereference the null Storage pointer of a storage-less active source (Array::link, GradientIndex::set).
 // OP GRAMMAR (handles are non-negative integers chosen by the caller; `:` separates a value list)
 //   cfg                                   new Stack, empty pools, event log installed            -> cfg
 //   av <h> [col] <d0> [d1 [d2]] : v..     new active Array (rank = #dims), values in index order  -> ok <geom>
@@ -12,7 +14,7 @@
 //   f4 <h> : v0..v3    f23 <h> : v0..v5   new active FixedArray<double,true,4> / <double,true,2,3>
 //   vw <h> <src> <ix> [<ix> [<ix>]]       view; <ix> = i<k> (scalar index) | s<b>:<e>:<st> (stride(b,e,st), st of either sign)
 //   vT <h> <src>                          src.T() (rank 2)        vperm <h> <src> <p0> <p1> <p2>   src.permute (rank 3)
-//   vdiag <h> <src> <k>                   src.diag_vector(k)      vsoft <h> <src>   src.soft_link()   vlink <h> <src>  (>>=)
+//   vdiag <h> <src> <k>                   src.diag_vector(k)      vsoft <h> <src>   src.soft_link()   vlink <h> <src>  (shallow copy)
 //   nr                                    new_recording                                            -> ok
 //   <statement kind> <args>               see drv_arrayad_s1..s4.cpp                               -> S <status> | ... (below)
 //   jac : <indep handles> : <dep handles> clear lists, independent()/dependent() each, jacobian()  -> J m n : entries (row-major)
@@ -266,28 +268,27 @@ static bool make_view(long h, Obj& src, const std::vector<Ix>& ix) {
 #define ST(i) stride(ix[i].b, ix[i].e, ix[i].s)
   if (R == 1) {
     if (ns) return false;
-    Array<1, double, A>* v = new Array<1, double, A>(); *v >>= as<1, A>(src)(ST(0)); add_view<1, A>(h, src, v); return true;
+    Array<1, double, A>* v = new Array<1, double, A>(as<1, A>(src)(ST(0))); add_view<1, A>(h, src, v); return true;
   }
   if (R == 2) {
     Array<2, double, A>& s = as<2, A>(src);
-    if (ns == 0) { Array<2, double, A>* v = new Array<2, double, A>(); *v >>= s(ST(0), ST(1)); add_view<2, A>(h, src, v); return true; }
+    if (ns == 0) { Array<2, double, A>* v = new Array<2, double, A>(s(ST(0), ST(1))); add_view<2, A>(h, src, v); return true; }
     if (ns == 1) {
-      Array<1, double, A>* v = new Array<1, double, A>();
-      if (ix[0].scalar) *v >>= s(ix[0].k, ST(1)); else *v >>= s(ST(0), ix[1].k);
+      Array<1, double, A>* v = ix[0].scalar ? new Array<1, double, A>(s(ix[0].k, ST(1))) : new Array<1, double, A>(s(ST(0), ix[1].k));
       add_view<1, A>(h, src, v); return true;
     }
     return false;
   }
   Array<3, double, A>& s = as<3, A>(src);
-  if (ns == 0) { Array<3, double, A>* v = new Array<3, double, A>(); *v >>= s(ST(0), ST(1), ST(2)); add_view<3, A>(h, src, v); return true; }
+  if (ns == 0) { Array<3, double, A>* v = new Array<3, double, A>(s(ST(0), ST(1), ST(2))); add_view<3, A>(h, src, v); return true; }
   if (ns == 1) {
-    Array<2, double, A>* v = new Array<2, double, A>();
-    if (ix[0].scalar) *v >>= s(ix[0].k, ST(1), ST(2)); else if (ix[1].scalar) *v >>= s(ST(0), ix[1].k, ST(2)); else *v >>= s(ST(0), ST(1), ix[2].k);
+    Array<2, double, A>* v = ix[0].scalar ? new Array<2, double, A>(s(ix[0].k, ST(1), ST(2)))
+      : ix[1].scalar ? new Array<2, double, A>(s(ST(0), ix[1].k, ST(2))) : new Array<2, double, A>(s(ST(0), ST(1), ix[2].k));
     add_view<2, A>(h, src, v); return true;
   }
   if (ns == 2) {
-    Array<1, double, A>* v = new Array<1, double, A>();
-    if (!ix[0].scalar) *v >>= s(ST(0), ix[1].k, ix[2].k); else if (!ix[1].scalar) *v >>= s(ix[0].k, ST(1), ix[2].k); else *v >>= s(ix[0].k, ix[1].k, ST(2));
+    Array<1, double, A>* v = !ix[0].scalar ? new Array<1, double, A>(s(ST(0), ix[1].k, ix[2].k))
+      : !ix[1].scalar ? new Array<1, double, A>(s(ix[0].k, ST(1), ix[2].k)) : new Array<1, double, A>(s(ix[0].k, ix[1].k, ST(2)));
     add_view<1, A>(h, src, v); return true;
   }
 #undef ST
@@ -296,22 +297,20 @@ static bool make_view(long h, Obj& src, const std::vector<Ix>& ix) {
 
 template <bool A>
 static bool other_view(const Words& w, long h, Obj& src) {
-  if (w[0] == "vT" && src.rank == 2) { Array<2, double, A>* v = new Array<2, double, A>(); *v >>= as<2, A>(src).T(); add_view<2, A>(h, src, v); return true; }
+  if (w[0] == "vT" && src.rank == 2) { Array<2, double, A>* v = new Array<2, double, A>(as<2, A>(src).T()); add_view<2, A>(h, src, v); return true; }
   if (w[0] == "vperm" && src.rank == 3 && w.size() == 6) {
-    Array<3, double, A>* v = new Array<3, double, A>();
-    try { *v >>= as<3, A>(src).permute(atoi(w[3].c_str()), atoi(w[4].c_str()), atoi(w[5].c_str())); } catch (...) { delete v; throw; }
+    Array<3, double, A>* v = new Array<3, double, A>(as<3, A>(src).permute(atoi(w[3].c_str()), atoi(w[4].c_str()), atoi(w[5].c_str())));
     add_view<3, A>(h, src, v); return true;
   }
   if (w[0] == "vdiag" && src.rank == 2 && w.size() == 4) {
-    Array<1, double, A>* v = new Array<1, double, A>();
-    try { *v >>= as<2, A>(src).diag_vector(atoi(w[3].c_str())); } catch (...) { delete v; throw; }
+    Array<1, double, A>* v = new Array<1, double, A>(as<2, A>(src).diag_vector(atoi(w[3].c_str())));
     add_view<1, A>(h, src, v); return true;
   }
   if (w[0] == "vsoft" || w[0] == "vlink") {
     bool soft = w[0] == "vsoft";
-    if (src.rank == 1) { Array<1, double, A>* v = new Array<1, double, A>(); if (soft) *v >>= as<1, A>(src).soft_link(); else *v >>= as<1, A>(src); add_view<1, A>(h, src, v); }
-    else if (src.rank == 2) { Array<2, double, A>* v = new Array<2, double, A>(); if (soft) *v >>= as<2, A>(src).soft_link(); else *v >>= as<2, A>(src); add_view<2, A>(h, src, v); }
-    else { Array<3, double, A>* v = new Array<3, double, A>(); if (soft) *v >>= as<3, A>(src).soft_link(); else *v >>= as<3, A>(src); add_view<3, A>(h, src, v); }
+    if (src.rank == 1) { Array<1, double, A>* v = soft ? new Array<1, double, A>(as<1, A>(src).soft_link()) : new Array<1, double, A>(as<1, A>(src)); add_view<1, A>(h, src, v); }
+    else if (src.rank == 2) { Array<2, double, A>* v = soft ? new Array<2, double, A>(as<2, A>(src).soft_link()) : new Array<2, double, A>(as<2, A>(src)); add_view<2, A>(h, src, v); }
+    else { Array<3, double, A>* v = soft ? new Array<3, double, A>(as<3, A>(src).soft_link()) : new Array<3, double, A>(as<3, A>(src)); add_view<3, A>(h, src, v); }
     return true;
   }
   return false;
